@@ -160,6 +160,8 @@ func TestC18Shutdown(t *testing.T) {
 
 	hx.Check(t, hx.Scale(12, 150), func(t *rapid.T) {
 		W := time.Duration(rapid.IntRange(200, 1500).Draw(t, "W_ms")) * time.Millisecond
+		// proxy.shutdownwait=0 (the default): nothing is waited for, and nothing holds the shutdown up
+		noWait := rapid.IntRange(0, 7).Draw(t, "no-wait-at-all") == 0
 		kinds := []string{}
 		all := []string{"http", "tcp", "tcp+sni", "grpc", "https+tcp+sni", "ui"} // ui: the admin server (ui.addr), started by main.go's startAdmin
 		if stalledAddr != "" {
@@ -273,6 +275,9 @@ func TestC18Shutdown(t *testing.T) {
 				if d < 0 {
 					hasNever = true
 				}
+				if noWait {
+					short = false // without a wait no piece of work is promised its end
+				}
 				wk := &work{dur: d, short: short, done: make(chan string, 1), started: make(chan struct{})}
 				switch k {
 				case "http":
@@ -328,6 +333,10 @@ func TestC18Shutdown(t *testing.T) {
 		// the shutdown moment relative to the start of the work
 		time.Sleep(time.Duration(rapid.IntRange(0, 30).Draw(t, "moment_pct")) * W / 100 / 3)
 
+		if noWait {
+			W = 0
+			hx.Class("shutdown-without-a-wait")
+		}
 		shutdownAt := time.Now()
 		shutdownDone := make(chan time.Duration, 1)
 		go func() {
@@ -335,7 +344,7 @@ func TestC18Shutdown(t *testing.T) {
 			shutdownDone <- time.Since(shutdownAt)
 		}()
 		// (1) listeners refuse new connections once shutdown has begun
-		time.Sleep(min(W/2, 300*time.Millisecond))
+		time.Sleep(max(min(W/2, 300*time.Millisecond), 150*time.Millisecond))
 		for _, k := range kinds {
 			if c, err := net.DialTimeout("tcp", addrs[k], 300*time.Millisecond); err == nil {
 				c.Close()
